@@ -119,6 +119,14 @@ func TestC20_CLI(t *testing.T) {
 		dir := mkdirWork("c20cli-")
 		defer os.RemoveAll(dir)
 		dbp := filepath.Join(dir, "db.yml")
+		// every entry belongs to another system and the filter is on: the ordinary search and its typo
+		// fallback find nothing, and the last-resort recovery search answers from the whole query text
+		filtered := len(cmds) > 0 && rapid.IntRange(0, 4).Draw(t, "all-entries-filtered-out") == 0
+		if filtered {
+			for i := range cmds {
+				cmds[i].Platform = []string{"windows"}
+			}
+		}
 		os.WriteFile(dbp, gen.EmitYAML(cmds), 0o644)
 		toks := gen.Tokens(cmds)
 		if len(toks) == 0 {
@@ -176,6 +184,25 @@ func TestC20_CLI(t *testing.T) {
 				}
 			}
 		}
+		if filtered {
+			// two neighbouring words of one command, spelt as they are
+			c := cmds[rapid.IntRange(0, len(cmds)-1).Draw(t, "words-of")]
+			fs := strings.Fields(c.Command)
+			ok := func(f string) bool {
+				for _, r := range f {
+					if !(r >= 'a' && r <= 'z' || r >= 'A' && r <= 'Z' || r >= '0' && r <= '9') {
+						return false
+					}
+				}
+				return f != ""
+			}
+			for i := 0; i+1 < len(fs); i++ {
+				if ok(fs[i]) && ok(fs[i+1]) {
+					words = []string{fs[i], fs[i+1]}
+					break
+				}
+			}
+		}
 		q1 := strings.Join(words, " ")
 		// second command line: re-cased, padded, split differently
 		var args2 []string
@@ -200,6 +227,9 @@ func TestC20_CLI(t *testing.T) {
 			}
 		}
 		common := []string{"--no-color", "-d", dbp, "--format", "json", "-v", "--limit", "20", "--all-platforms", "--"}
+		if filtered {
+			common = []string{"--no-color", "-d", dbp, "--format", "json", "-v", "--limit", "20", "--platform", "linux", "--no-cross-platform", "--"}
+		}
 		h1, _ := proc.NewHome(dir)
 		h2, _ := proc.NewHome(dir)
 		r1 := runWtf(h1, dir, append(append([]string{}, common...), q1))
@@ -221,6 +251,6 @@ func TestC20_CLI(t *testing.T) {
 		if !reflect.DeepEqual(i1, i2) {
 			t.Fatalf("command lines that differ only in case/whitespace print different results:\n argv1=%q -> %+v\n argv2=%q -> %+v", []string{q1}, i1, args2, i2)
 		}
-		rec.Case(len(i1) > 0 && (len(args2) != 1 || args2[0] != q1), map[string]any{"argv1": q1, "argv2": args2, "printed": len(i1)}, "cli", "cli-mode:"+mode)
+		rec.Case(len(i1) > 0 && (len(args2) != 1 || args2[0] != q1), map[string]any{"argv1": q1, "argv2": args2, "printed": len(i1)}, "cli", "cli-mode:"+mode, fmt.Sprintf("all-entries-filtered-out:%v", filtered))
 	})
 }
